@@ -424,6 +424,114 @@ func (t *SymbolTable) Index(s string) uint64 {
 	if len(*s) >= maxStackSize {''',
      '''func (s *stack) Push(v Term) error {
 	if len(*s) > maxStackSize {''', "go_stack_Push_eq"),
+    # ---- stage E (names starting with "E"): GenFnProofs.v, GenFnSetProofs.v, then GenFnDatalogProofs.v ----
+    ("E0_unmodified_baseline_stageE", "harmless", "datalog.go", "", "", None),
+    ("ER1_Predicate_Equal_swapped_guards_continue", "harmless", "datalog.go",
+     """func (p Predicate) Equal(p2 Predicate) bool {
+	if p.Name != p2.Name || len(p.Terms) != len(p2.Terms) {
+		return false
+	}
+	for i, id := range p.Terms {
+		if !id.Equal(p2.Terms[i]) {
+			return false
+		}
+	}
+
+	return true
+}""",
+     """func (p Predicate) Equal(p2 Predicate) bool {
+	if len(p2.Terms) != len(p.Terms) {
+		return false
+	}
+	if p2.Name != p.Name {
+		return false
+	}
+	for position, mine := range p.Terms {
+		other := p2.Terms[position]
+		if mine.Equal(other) {
+			continue
+		}
+		return false
+	}
+	return true
+}""", None),
+    ("ER2_FactSet_Insert_continue_style", "harmless", "datalog.go",
+     """	for _, v := range *s {
+		if v.Equal(f.Predicate) {
+			return false
+		}
+	}
+	*s = append(*s, f)
+	return true""",
+     """	for _, existing := range *s {
+		if !existing.Equal(f.Predicate) {
+			continue
+		}
+		return false
+	}
+	added := true
+	*s = append(*s, f)
+	return added""", None),
+    ("ER3_advanceIndexes_early_return_instead_of_break", "harmless", "datalog.go",
+     """		if (*indexes)[i] < len(*facts)-1 {
+			(*indexes)[i] += 1
+			break
+		} else {
+			if i > 0 {
+				(*indexes)[i] = 0
+				*current -= 1
+			} else {
+				// we reached the first predicate, we cannot generate more
+				// combinations, so we stop the task
+				return false
+			}
+		}""",
+     """		last := len(*facts) - 1
+		if (*indexes)[i] < last {
+			(*indexes)[i] = (*indexes)[i] + 1
+			return true
+		}
+		if i == 0 {
+			return false
+		}
+		*current = *current - 1
+		(*indexes)[i] = 0""", None),
+    ("EM1_Predicate_Equal_without_length_test", "mutation", "datalog.go",
+     """func (p Predicate) Equal(p2 Predicate) bool {
+	if p.Name != p2.Name || len(p.Terms) != len(p2.Terms) {""",
+     """func (p Predicate) Equal(p2 Predicate) bool {
+	if p.Name != p2.Name {""", "go_Predicate_Equal_eq"),
+    ("EM2_Predicate_Match_only_receiver_variables_are_wildcards", "mutation", "datalog.go",
+     "		if v1 || v2 {\n			continue",
+     "		if v1 || v1 && v2 {\n			continue", "go_Predicate_Match_eq"),
+    ("EM3_advanceIndexes_current_from_cached_start", "mutation", "datalog.go",
+     [("func advanceIndexes(current *int, indexes *[]int, facts *FactSet) bool {\n",
+       "func advanceIndexes(current *int, indexes *[]int, facts *FactSet) bool {\n	start := *current\n"),
+      ("				*current -= 1\n", "				*current = start - 1\n")],
+     None, "go_advanceIndexes_eq"),
+    ("EM4_FactSet_Equal_without_length_test", "mutation", "datalog.go",
+     """func (s *FactSet) Equal(x *FactSet) bool {
+	if len(*s) != len(*x) {
+		return false
+	}
+""",
+     """func (s *FactSet) Equal(x *FactSet) bool {
+""", "go_FactSet_Equal_eq"),
+    ("EU1_ascending_for_loop_is_refused", "unsupported", "datalog.go",
+     """	for i, id := range p.Terms {
+		if !id.Equal(p2.Terms[i]) {
+			return false
+		}
+	}
+
+	return true""",
+     """	for i := 0; i < len(p.Terms); i++ {
+		if !p.Terms[i].Equal(p2.Terms[i]) {
+			return false
+		}
+	}
+
+	return true""", None),
     ("U1_unsupported_construct_is_refused", "unsupported", "symbol.go",
      '''	*t = append(*t, s)
 
@@ -449,7 +557,9 @@ def pristine_datalog(dst):
     subprocess.run(["tar", "-x", "-C", dst], input=ar.stdout, check=True)
 
 
-NEEDED = ["Base", "Term", "Expr", "DTerm", "Symbols", "Datalog", "Authz", "Wire", "Token", "DEval", "GoSem"]
+NEEDED = ["Base", "Term", "Expr", "DTerm", "Symbols", "Datalog", "Authz", "Wire", "Token", "DEval", "GoSem", "Odometer"]
+# a private GoSem.v (stage E adds set_idx / down_loop to the prelude) replaces the committed one in the private base
+GOSEM = os.environ.get("GENFN_GOSEM", "")
 
 
 def snapshot_base():
@@ -462,6 +572,8 @@ def snapshot_base():
     ar = subprocess.run(["git", "-C", VERIF, "archive", "HEAD", "coq/Model"], stdout=subprocess.PIPE, check=True)
     subprocess.run(["tar", "-x", "-C", BASE, "--strip-components=1", "--wildcards", "coq/Model/*.v"],
                    input=ar.stdout, check=True)
+    if GOSEM:
+        shutil.copy(GOSEM, os.path.join(BASE, "Model", "GoSem.v"))
     # coq/Generated.v is not tracked: regenerate it with /verif/build/gen from the COMMITTED /repo
     head = os.path.join(BASE, "repo_head")
     os.makedirs(head)
@@ -535,6 +647,7 @@ def main():
             if want and name not in want and name != "R0_unmodified_baseline":
                 continue
             stage_d = name.startswith("D")
+            stage_e = name.startswith("E")
             shutil.rmtree(SCRATCH, ignore_errors=True)
             os.makedirs(os.path.join(SCRATCH, "coq"))
             pristine_datalog(os.path.join(SCRATCH, "repo"))
@@ -596,6 +709,18 @@ def main():
                 pp = os.path.join(SCRATCH, "coq", "GenFnEvalProofs.v")
                 open(pp, "w").write(proofs)
                 r2 = sh(["timeout", "1800", "coqc"] + args + [pp])
+            if stage_e and r2.returncode == 0:
+                # stage E: GenFnSetProofs.v (go_Term_Equal_eq, loop lemmas), then GenFnDatalogProofs.v
+                for fn, imp in (("GenFnSetProofs.v", "From BV Require Import GeneratedFn GenFnProofs."),
+                                ("GenFnDatalogProofs.v", "From BV Require Import GeneratedFn GenFnProofs GenFnSetProofs.")):
+                    proofs = open(os.path.join(PROOFS, fn)).read()
+                    assert imp in proofs, fn
+                    proofs = proofs.replace(imp, imp.replace("From BV ", "From BVS "))
+                    pp = os.path.join(SCRATCH, "coq", fn)
+                    open(pp, "w").write(proofs)
+                    r2 = sh(["timeout", "1800", "coqc"] + args + [pp])
+                    if r2.returncode != 0:
+                        break
             tcoq = time.time() - t0
             passed = r2.returncode == 0 and "Closed under the global context" in r2.stdout
             if "inconsistent assumptions" in r1.stdout + r2.stdout or "Cannot find a physical path" in r2.stdout:
